@@ -44,6 +44,13 @@ pub fn opcode_num(o: OPCODE) -> u8 {
         OPCODE::Notify => 4,
         OPCODE::Update => 5,
         OPCODE::Reserved => OPCODE_RESERVED,
+        // a variant this harness does not know (the enum grew): the number the library writes for it
+        #[allow(unreachable_patterns)]
+        other => {
+            let mut p = Packet::new_query(0);
+            *p.opcode_mut() = other;
+            p.build_bytes_vec().map(|b| (b[2] >> 3) & 0xf).unwrap_or(OPCODE_RESERVED)
+        }
     }
 }
 
@@ -73,6 +80,17 @@ pub fn rcode_num(r: RCODE) -> u16 {
         RCODE::NOTZONE => 10,
         RCODE::BADVERS => 16,
         RCODE::Reserved => RCODE_RESERVED,
+        // a variant this harness does not know (the enum grew): the 12-bit number the library writes for it
+        #[allow(unreachable_patterns)]
+        other => {
+            let mut p = Packet::new_reply(0);
+            *p.rcode_mut() = other;
+            *p.opt_mut() = Some(rd::OPT { opt_codes: vec![], udp_packet_size: 512, version: 0 });
+            match p.build_bytes_vec() {
+                Ok(b) if b.len() >= 23 => ((b[b.len() - 6] as u16) << 4) | (b[3] & 0xf) as u16,
+                _ => RCODE_RESERVED,
+            }
+        }
     }
 }
 
@@ -197,6 +215,8 @@ pub fn class_num(c: CLASS) -> u16 {
         CLASS::CH => 3,
         CLASS::HS => 4,
         CLASS::NONE => 254,
+        #[allow(unreachable_patterns)]
+        other => other as u16,
     }
 }
 
@@ -219,6 +239,8 @@ pub fn qtype_num(q: QTYPE) -> u16 {
         QTYPE::MAILB => 253,
         QTYPE::MAILA => 254,
         QTYPE::ANY => 255,
+        #[allow(unreachable_patterns)]
+        other => u16::from(other),
     }
 }
 
@@ -237,6 +259,8 @@ pub fn qclass_num(q: QCLASS) -> u16 {
     match q {
         QCLASS::CLASS(c) => class_num(c),
         QCLASS::ANY => 255,
+        #[allow(unreachable_patterns)]
+        other => u16::from(other),
     }
 }
 
@@ -407,6 +431,9 @@ pub fn obs_rdata(r: &RData) -> RefRData {
         RData::DHCID(d) => t(49, vec![Val::U16(d.identifier), Val::U8(d.digest_type), vt(&d.digest)]),
         RData::NULL(code, n) => RefRData::Opaque { code: *code, data: B(n.get_data().to_vec()) },
         RData::Empty(ty) => RefRData::Empty { code: type_num(*ty) },
+        // a record type this harness has no schema for (the enum grew): its code, content not observed
+        #[allow(unreachable_patterns)]
+        other => RefRData::Opaque { code: type_num(other.type_code()), data: B(format!("{:?}", other).into_bytes()) },
     }
 }
 
